@@ -71,6 +71,7 @@ def gen_history(rng):
             cid += 2 if kind == "args2" else 1
             if kind == "layer":
                 op.append(rng.choice(["testrun"] + LAYERS))
+                op.append(rng.random() < 0.3)        # registered twice
             ops.append(op)
         else:
             kind = rng.choice(["generator", "generator", "plain", "failing_setup", "composite", "nested"])
@@ -124,6 +125,11 @@ def _run_history(ops, raising, stats=None):
         return "v%d" % val_n[0]
 
     def check_all(where, i):
+        # what behave itself put into the test-run scope is visible like any other attribute
+        for nm in ("config", "aborted", "failed"):
+            if nm not in context or not hasattr(context, nm):
+                return V("C13", "visibility", "machine:builtin-root-attribute:after-%s" % where, op_index=i, name=nm,
+                         contains=nm in context, has=hasattr(context, nm))
         for nm in NAMES:
             want_in, want_val = model.visible(nm)
             got_in = nm in context
@@ -300,6 +306,9 @@ def _run_history(ops, raising, stats=None):
                                      accepted=ok), dig.hexdigest()
                         if fr is not None:
                             fr["cleanups"].append(c)
+                            if len(op) > 4 and op[4]:
+                                # the very same function for the very same layer again: still one registration
+                                context.add_cleanup(f, layer=op[3])
                 elif k == "fixture":
                     kind, c = op[1], op[2]
                     if kind == "generator":
